@@ -31,6 +31,7 @@ PATTERNS = [
     r"zzz_nomatch",
     r"oth",                       # matches 'other.zo' as a prefix only
     r"(?P<name>[a-z]+)_l",        # prefix of 'work_log.zo'
+    r"(?P<name>[a-z]+)(?P<opt>_zzz)?\.zo",   # an optional group that takes no part in the match
 ]
 TARGETS = ["notes.zo", "20240304.zo", "work_log.zo", "sub/new/deep.zo", "noext", "other.zo", "20241399.zo",
            "20240131.zo", "20240430.zo", "20240229.zo"]
@@ -89,7 +90,8 @@ def expected(pmap, target, exists, overwrite, explicit, vm):
         m = re.compile(PATTERNS[pi]).match(rel)
         if m:
             chosen = pi
-            vars_.update(m.groupdict())
+            # a group that took no part in the match captured nothing
+            vars_.update({k: v for k, v in m.groupdict().items() if v is not None})
             break
     if chosen is None:
         return exists, None
@@ -424,7 +426,7 @@ def _cases(ctx):
             for exists in (False, True):
                 for overwrite in (False, True):
                     explicit = (ti + len(pmap)) % 2 == 0
-                    cases.append(["cli", pmap, ti, exists, overwrite, explicit, (ti + overwrite) % 2])
+                    cases.append(["cli", pmap, ti, exists, overwrite, explicit, (ti + overwrite + len(pmap)) % 3])
     # a variable captured for one page must not reach the next page initialised in the process
     for mode in ("fn", "fn-dict", "edit"):
         for first_ti in (2, 1):  # work_log.zo captures name, 20240304.zo captures date
